@@ -110,701 +110,753 @@ options1 int `{ , }`
 //
 ,
 }")).
-Eval vm_compute in ("<<<M257>>>" ++ check (runes_of_ascii "options
-{
-BodyLength
-=3 ;// " ++ [128512]%N ++ runes_of_ascii " emoji
-T = ""packet""
-// @lengthOf(
-// trailing space 
-;
-// c
-// trailing space 
-crc = true ;
-falsey= '\x00'/// triple
-;
-} root packet A
-    {@leftPad (
-'0' )	char[
-65535 ] Header  `" ++ [233]%N ++ runes_of_ascii "` ,
-@rightPad( '0' ) //
-a1 @lengthOf( msg_type ) , @lengthOf( rootA )
-    match
-_x as //x
-stringy {""CRC32"" : chars, 3// `tick` ""quote"" 'q'
-:float , 255	:	asx // `tick` ""quote"" 'q'
-, 10  : tag ,//
-} ,
-    @calculatedFrom(
-    """ ++ [128512]%N ++ runes_of_ascii """	) u32 u8x`crlf
-line` , repeat char[]	asx `a\` , @rightPad ( '0'	)match f32a  as Packet
-    { [ 255 , ""CRC32"" , 007
-, ""1"",""packet"" , 00 ,
-    4294967296 ]	: calculatedFrom , ""packet"" :
-    falsey, ""a\""b"": body , 7// a // b
-: Packet // " ++ [128512]%N ++ runes_of_ascii " emoji
-0123456789 :	i64_ ,
-    // a // b
-    [4294967296 , 0123456789 ]  : // `tick` ""quote"" 'q'
-options1	} ,crc /// triple
-@lengthOf(	Foo
-    )
-    ,
-@calculatedFrom( ""{,}"")@lengthOf(metadata ) @lengthOf( i8i8
-)int64 options1 @calculatedFrom(""CRC32"" )
-    `line1
-line2` , // @lengthOf(
-} packet a1 // `tick` ""quote"" 'q'
-{ match lengthOf//
-as x_y_z
-{ ""it's"" :matchKey
-//
-// @lengthOf(
-, 10 :
-Packet , [ //x
-""abc""
-    ]// a // b
-: A 10 //x
-: metadata
-    ,
-    } ,
-}MetaData
-    body { char string_, char[]
-x, len Pad , string
-    leftPad , } // trailing space ")).
-Eval vm_compute in ("<<<M1825>>>" ++ check (runes_of_ascii "root packet crc {
-    @lengthOf(As)
-    @calculatedFrom(""\" ++ [233]%N ++ runes_of_ascii """)
-    zchar[4294967296] MetaDataX `doc`,/// triple
-    rootA @calculatedFrom(""it's""),
-    @tag(65535)
-    @tag(7)
-    @tag(00)
-    len @lengthOf(A) `two words`,
-    // trailing space 
-    // " ++ [128512]%N ++ runes_of_ascii " emoji
-    string rootA @lengthOf(pack),
-    // " ++ [128512]%N ++ runes_of_ascii " emoji
-    // trailing space 
-    repeat zchar,
-    @calculatedFrom(""abc"")
-    @leftPad('\x00')
-    @rightPad()
-    match x_y_z as Z9_ {
-        ""it's"" : Logon,
-        ""x y"" : Packet,
-        ""abc"" : trueish,
-        4294967296 : repeatCount,
-        """ ++ [128512]%N ++ runes_of_ascii """ : x_y_z,
+Eval vm_compute in ("<<<M382>>>" ++ check (runes_of_ascii "options {
+	StringPrefixLenType = u16;
+	ArrayPrefixLenType = u16;
+}
+
+packet SampleBinary {
+    uint16 MsgType `" ++ [28040; 24687; 31867; 22411]%N ++ runes_of_ascii "`,
+    u16 BodyLenght @lengthOf(Body) `" ++ [28040; 24687; 20307; 38271; 24230]%N ++ runes_of_ascii "`,
+    match MsgType as Body {
+        1 : Logon,
+        2 : Logout,
+        3 : Heartbeat,
+        4 : RiskControlRequest,
+        5 : RiskControlResponse,
     },
-    char[10] stringy `it's`,
-    @leftPad('\x00')
-    rootA @lengthOf(i64_),
+        @calculatedFrom(""CRC32"")
+    u32 Ckecksum `" ++ [26657; 39564; 21644]%N ++ runes_of_ascii "`,
 }
 
-MetaData falsey {
-    Packet repeatCount `tab	here`,
+packet Logon {
+     @leftPad('0')
+    char[10] UserName `" ++ [29992; 25143; 21517]%N ++ runes_of_ascii "`,
+    string Password `" ++ [23494; 30721]%N ++ runes_of_ascii "`,
+    uint64 ClientId `" ++ [23458; 25143; 31471]%N ++ runes_of_ascii "ID`,
+    u16 HeartbeatInterval `" ++ [24515; 36339; 38388; 38548]%N ++ runes_of_ascii "`,
 }
 
-MetaData string_ {
-    float64 roots `line1
-    line2`,
-    char As `
-    `,
-    zchar[65535] falsey `a\`,
-    A T,
-    _x metadata,
+packet Logout {
+      @rightPad('0')
+    char[10] UserName `" ++ [29992; 25143; 21517]%N ++ runes_of_ascii "`,
+    uint64 ClientId `" ++ [23458; 25143; 31471]%N ++ runes_of_ascii "ID`,
 }
 
-packet _x {
-    zchar[255] string_ @lengthOf(u128) `{ , }`,
+packet Heartbeat {
 }
 
-root packet Packet {
-    repeat lengthOf,
+packet RiskControlRequest {
+    string UniqueOrderId `" ++ [21807; 19968; 35746; 21333; 21495]%N ++ runes_of_ascii "`,
+    char[16] ClOrdID `" ++ [23458; 25143; 35746; 21333; 21495]%N ++ runes_of_ascii "`,
+    char[3] MarketID `" ++ [24066; 22330]%N ++ runes_of_ascii "id`,
+    char[12] SecurityID `" ++ [35777; 21048; 20195; 30721]%N ++ runes_of_ascii "`,
+    char Side `" ++ [20080; 21334; 26041; 21521]%N ++ runes_of_ascii "`,
+    char OrderType `" ++ [35746; 21333; 31867; 22411]%N ++ runes_of_ascii "`,
+    u64 Price `" ++ [20215; 26684]%N ++ runes_of_ascii "`,
+    u32 Qty `" ++ [25968; 37327]%N ++ runes_of_ascii "`,
+    repeat string ExtraInfo `" ++ [38468; 21152; 20449; 24687]%N ++ runes_of_ascii "`,
+    repeat SubOrder {
+    		char[16] ClOrdID `" ++ [23376; 35746; 21333; 21495]%N ++ runes_of_ascii "`,
+    		u64 Price `" ++ [23376; 35746; 21333; 20215; 26684]%N ++ runes_of_ascii "`,
+    		u32 Qty `" ++ [23376; 35746; 21333; 25968; 37327]%N ++ runes_of_ascii "`,
+    	},
+}
+
+packet RiskControlResponse {
+    string UniqueOrderId `" ++ [21807; 19968; 35746; 21333; 21495]%N ++ runes_of_ascii "`,
+    i32 Status `" ++ [29366; 24577]%N ++ runes_of_ascii "`,
+    string Msg `" ++ [32467; 26524; 20449; 24687]%N ++ runes_of_ascii "`,
+    repeat Detail,
+}
+
+packet Detail {
+    string RuleName `" ++ [35268; 21017; 21517; 31216]%N ++ runes_of_ascii "`,
+    u16 Code `" ++ [21407; 22240; 20195; 30721]%N ++ runes_of_ascii "`,
 }")).
-Eval vm_compute in ("<<<M1770>>>" ++ check (runes_of_ascii "packet int {
-}
-
-packet Z9_ {
-    @tag(1)
-    @tag(00)
-    zchar[0] trueish `// not a comment`,
-    Header @lengthOf(repeatCount),
-    charz float `crlf
-        line`,
-    match lengthOf as u {
-        // `tick` ""quote"" 'q'
-        65535 : msg_type,
-        ""1"" : x,
-        ""a\""b"" : packetx,
-        10 : msg_type,
-        """ ++ [128512]%N ++ runes_of_ascii """ : calculatedFrom,
-        [7, 0] : u128,
+Eval vm_compute in ("<<<M1699>>>" ++ check (runes_of_ascii "// a // b
+packet stringy {
+    string zchar,
+    repeat T,
+    match u as charz {
+        007 : float,
+        ""\" ++ [233]%N ++ runes_of_ascii """ : Logon,
+        ""a	b"" : pack,
     },
-    string i8i8 `{ , }`,
-}
-
-packet a1 {
-}
-
-root packet roots {
-    @lengthOf(u)
-    f64 Logon,
-    @lengthOf(_x)
-    As @calculatedFrom(""\n""),
-    @leftPad()
-    repeatCount @calculatedFrom(""{,}"") `tab	here`,
-    @tag(42)
-    char[1] T `a\`,
-    int64 _x,
-    zchar[4294967296] i64_ @lengthOf(tag) `
-        `,
-    @calculatedFrom(""a\""b"")
-    u8 len `it's`,
-    @leftPad()
-    metadata @lengthOf(tag) `{ , }`,
-    @leftPad(' ')
-    MetaDataX {
-        repeat char[] rootA,
+    match uint8x as roots {
+        1 : len,
     },
-    i8 body,
-}")).
-Eval vm_compute in ("<<<M228>>>" ++ check (runes_of_ascii "packet
-//
-// " ++ [27880; 37322]%N ++ runes_of_ascii "
-BodyLength  {
-repeat
-    // @lengthOf(
-    zchar[	255]tag `crlf
-line` , } MetaData BodyLength	{
-char[ 65535] //	t
-packetx `" ++ [28040; 24687; 31867; 22411]%N ++ runes_of_ascii "` , } options
-    {
-    metadata =3; // trailing space 
-} packet Packet
-{ o { uint16	Logon
-    , } , @leftPad (  )char[ 0123456789 ]
-a1 `" ++ [28040; 24687; 31867; 22411]%N ++ runes_of_ascii "` // a // b
-,
-    repeat string
-lengthOf
-    `{ , }`	,stringy crc
-,@rightPad (
-' ' ) u32	MetaDataX
-    ,
-@rightPad('0' ) tag	{repeat f64 tag `u8 x,`
-, }
-    //	t
-    , char[
-    00 ] uint8x `` , match leftPad  as Header {""" ++ [233]%N ++ runes_of_ascii "t" ++ [233]%N ++ runes_of_ascii """  : Foo
-, [	""\" ++ [233]%N ++ runes_of_ascii """
-, 007
-,00 , 10, ""\" ++ [233]%N ++ runes_of_ascii """ ]: crc
-, [ 1 ,007 , ""a\\""
-    ,
-""packet""
-    ]: //	t
-len // packet A { u8 x, }
-, 10 : MetaDataX
-//x
-// " ++ [128512]%N ++ runes_of_ascii " emoji
-,  }
-//	t
-/// triple
-, } packet
-    i64_{
-@rightPad	('\x00'
-)
-@leftPad(
-) i8 body@calculatedFrom(""" ++ [233]%N ++ runes_of_ascii "t" ++ [233]%N ++ runes_of_ascii """) `it's` , }
-// @lengthOf(
-")).
-Eval vm_compute in ("<<<M1346>>>" ++ check (runes_of_ascii "options
-{ StringPrefixLenType	= u16	;	ArrayPrefixLenType =
-u32; FixedStringPadFromLeft = 
-true;  FixedStringPadChar 
-=	'0'
-    ;
-
-    } packet Cancel{
-    }
-
-packet
-Party
-{
-
-    } packet	Logon { } packet 
-Ack
-{ }
-packet 
-Logout
-{ repeat
-InSym87 {InClordid94
-
-{ string clOrdID	,
-    } 
-, 
-string
-    Px , i16  Qty,	repeat  InCount71	{repeat
-    Cancel 
-,
-uint16	Tail
-, char[
-	2
-
-]
-x
-    ,repeat string Ref
-
-,
-
 }
 
-, Cancel
-	,
+packet zchar {
+    roots options1 `// not a comment`,
+    int64 As,
+    i16 float @lengthOf(falsey) `a\`,
+    int64 msg_type `tab	here`,
+    @tag(0)
+    repeat uint8x,
+    @lengthOf(x)
+    repeat metadata,
+    zchar[0] int,
+    uint64 zchar,
+    zchar[7] msg_type,
+    @calculatedFrom(""" ++ [28040; 24687]%N ++ runes_of_ascii """)
+    crc,
 }
-    , } 
-root
-    packet
-    Order  {
-    repeat
-string 
-tag7 
-,
 
-@leftPad
+root packet zchar {
+    repeat leftPad,
+}
 
-( ' ' ) char[3  ]
-	Px
-	, u8	Qty ,
-    match  Qty
-
-    as
-Body
-    {
-	[ 
-28
-
-    ,	62 ]
-    : 
-Logon
-
-    ,148 : Ack, 88:Party	, 184
-: 
-Cancel	, }
-    , u16	Note@calculatedFrom(
-	""CRC32"" )
-
-,  }
-")).
-Eval vm_compute in ("<<<M1548>>>" ++ check (runes_of_ascii "
-MetaData	u128
-    {
-
-    zchar[ 3 ]  matchKey `crlf
-line`	//
-,} // packet A { u8 x, }
-
-options  {  //x
-}root
-	packet rootA{
-@calculatedFrom(
-	""{,}""
-	)
-
-    repeat
-u16
-
-len,
-repeat
-
-body
-    ,  i8i8
-
-    @lengthOf( 
-packetx)
-    ,
-	metadata
-int
-	`line1
-line2`, uint8x `two words` 	 // c
-  ,int16//
-x_y_z 
-,repeatCount
-
-    ,
-
-Logon 
-{
-repeat// trailing space 
-  i8 Packet
-	`line1
-line2`
-
-,
-
-    }
-
-,
-	}
-
-    options{  // " ++ [128512]%N ++ runes_of_ascii " emoji
-lengthOf 
-        //
-// trailing space 
-	=
-	' ' ;	i64_
-
-= 
-""{,}""
-	; msg_type=
-	'0'
-	; u
-	= 
-        // packet A { u8 x, }
-// " ++ [27880; 37322]%N ++ runes_of_ascii "
-i32	; _x=
-
-    ""abc""
-	// packet A { u8 x, }
-  ; }
-")).
-Eval vm_compute in ("<<<M1116>>>" ++ check (runes_of_ascii "// top
-MetaData // c0
-Packet // c1
-{ // c2
-} // c3
-packet // c4
-charz // c5
-{ // c6
-Foo // c7
-asx // c8
-`it's` // c9
-, // c10
-@lengthOf( // c11
-T // c12
-) // c13
-@calculatedFrom( // c14
-"""" // c15
-) // c16
-@calculatedFrom( // c17
-""x y"" // c18
-) // c19
-zchar[ // c20
-007 // c21
-] // c22
-repeatCount // c23
-@lengthOf( // c24
-int // c25
-) // c26
-`a\` // c27
-, // c28
-i8 // c29
-string_ // c30
-, // c31
-repeat // c32
-options1 // c33
-Pad // c34
-, // c35
-} // c36
-root // c37
-packet // c38
-Packet // c39
-{ // c40
-int8 // c41
-float // c42
-`doc` // c43
-, // c44
-} // c45
-")).
-Eval vm_compute in ("<<<M1714>>>" ++ check (runes_of_ascii "// top
 packet A {
-    // c2
-    u8 a,// c5
-}// c6a
-
-// c6b
-packet B {
-    // c9
-    u16 b,
-}// c13a
-
-// c13b
-packet C {
-    // c16
-    u32 c,// c19a
+    @lengthOf(string_)
+    x @lengthOf(options1) `two words`,
+    string len,
 }
 
-// c20
-root packet M {
-    u16 Kc,
-    // c27
-    u16 Kb,// c30
-    u16 Ka,
-    match Kc as X {
-        // c38
-        9 : A,
-        10 : B,
+packet falsey {
+    i64_ @calculatedFrom(""{,}""),
+    repeat string chars,
+    zchar[7] calculatedFrom,
+    Header {
+        char u `two words`,
+        repeat char[] tag `say ""hi""`,
+        Z9_ @lengthOf(T) `line1
+        line2`,
     },
-    match Kb as Y {
-        2 : C,
-        // c57
-        1 : A,
-    },// c63a
-    // c63b
-    match Ka as Z {
-        // c68
-        1 : B,
-    },// c74
-    A,// c76
-    B,
-    // c78
-    C,// c80
-}")).
-Eval vm_compute in ("<<<M48>>>" ++ check (runes_of_ascii "root	packet Logon { @calculatedFrom( """" ) @lengthOf( int ) @tag( 3
-) match _x
-as // a // b
-i64_ { 10:asx
-// `tick` ""quote"" 'q'
-/// triple
-""" ++ [128512]%N ++ runes_of_ascii """ : crc ,[ 0
-,
-007
-] : float  ,// trailing space 
-}
-    , repeat //	t
-uint16
-leftPad  ,
-    }
-    // " ++ [27880; 37322]%N ++ runes_of_ascii "
-    packet charz
-{  } MetaData
-int {
-//
-// trailing space 
-zchar[ 4294967296 ]matchKey
-,
-asx rootA
-    `doc`
-, Foo string_ `// not a comment`
-,
-    char[]u8x , // `tick` ""quote"" 'q'
-roots
-float , }
-")).
-Eval vm_compute in ("<<<M1750>>>" ++ check (runes_of_ascii "
-options
-{  u	= 
-7
-    // " ++ [27880; 37322]%N ++ runes_of_ascii "
-    roots
-=
-zchar[ 
-65535	]
+    msg_type @calculatedFrom(""// no comment""),
+    @rightPad('\x00')
+    @lengthOf(asx)
+    falsey,
+}// packet A { u8 x, }")).
+Eval vm_compute in ("<<<M1331>>>" ++ check (runes_of_ascii "  options { 
+FixedStringPadFromLeft 
+=	true;
 
-msg_type  =
+FixedStringPadChar =
+    '0' ;
+} packet
+Leg{	InPrice0 { 
+repeat string clOrdID ,
 
-""" ++ [233]%N ++ runes_of_ascii "t" ++ [233]%N ++ runes_of_ascii """
-; x=false
-    }MetaData string_ { char[ 	 // trailing space 
-    42
-        //x
-// " ++ [128512]%N ++ runes_of_ascii " emoji
+    int16 msgKind
+, 
+zchar[
 
-	]
+    5  ]	Px
 
-i8i8
-    `" ++ [28040; 24687; 31867; 22411]%N ++ runes_of_ascii "`
-
-,
-u8
-
-x_y_z,  packetx
-    lengthOf
-`` 
-    // " ++ [27880; 37322]%N ++ runes_of_ascii "
-
-, T 
-Header
-
-`line1
-line2`  ,
-    char[] 	 // " ++ [27880; 37322]%N ++ runes_of_ascii "
-  u8x `two words`
-,  }
-	packet float  //x
-
-	{
-calculatedFrom
-
-, @rightPad
-	(	'0' )
-	char[3 ]
-
-    u128, }
-
-")).
-Eval vm_compute in ("<<<M1629>>>" ++ check (runes_of_ascii "
-packet BodyLength {
-	repeatCount  // packet A { u8 x, }
-  `// not a comment`
-,@lengthOf( 
-lengthOf 
-)
-
-@tag(
-
-65535
-
-    )	@rightPad( 
-
-// @lengthOf(
-//	t
-    '0' )	/// triple
-u8 Logon
-,}
-packet
-	chars
-{o 
-msg_type 
-,
-    @tag(
-
-    10
-    )zchar[
-    65535
-]f32a, 
-repeat char[]i64_
-`
-` ,
-}  root
-packet
-    f32a	{	@tag(
-255)
-
-    repeat  u8	stringy  , }
-")).
-Eval vm_compute in ("<<<M1465>>>" ++ check (runes_of_ascii "// top
-MetaData Packet {
-}
-
-// c3
-packet charz {
-    // c6
-    Foo asx `it's`,
-    @lengthOf(T)
-    @calculatedFrom("""")
-    @calculatedFrom(""x y"")
-    // c19
-    zchar[007] repeatCount @lengthOf(int) `a\`,
-    // c28
-    i8 string_,
-    // c31
-    repeat options1 Pad,
-}
-
-// c36
-root packet Packet {
-    // c40
-    int8 float `doc`,
-}")).
-Eval vm_compute in ("<<<M57>>>" ++ check (runes_of_ascii "packet	tag { }
-packet falsey
-    { string charz @lengthOf(
-    zchar ) ,
-string // trailing space 
-u @calculatedFrom( """ ++ [233]%N ++ runes_of_ascii "t" ++ [233]%N ++ runes_of_ascii """	) `// not a comment`
-, @leftPad( '0' )
-char[] leftPad @calculatedFrom(
-    ""a	b"")`// not a comment` , @calculatedFrom(
-    ""`tick`"" )
-    @lengthOf(roots
-) repeat MetaDataX
-, }
-
-")).
-Eval vm_compute in ("<<<M130>>>" ++ check (runes_of_ascii "packet zchar { @lengthOf( a1
-// " ++ [128512]%N ++ runes_of_ascii " emoji
-//	t
-) i64_ @lengthOf( Header )
-`" ++ [28040; 24687; 31867; 22411]%N ++ runes_of_ascii "`, charz`" ++ [233]%N ++ runes_of_ascii "` , char[007] i64_ , tag  { u16  matchKey // " ++ [27880; 37322]%N ++ runes_of_ascii "
-,match Pad as lengthOf { [""CRC32"" ,	""abc""
-] : Packet
-,	}
-, }
-    , } MetaData body {char[
-    10 ]u128
-    `doc`
     ,
-/// triple
-//x
-} //x")).
-Eval vm_compute in ("<<<M1448>>>" ++ check (runes_of_ascii "root packet trueish {
-    char[] MetaDataX,
-    @leftPad('0')
-    match float as crc {
-        0123456789 : chars,
-        ""{,}"" : i8i8,
-    },
-    f32a f32a `tab	here`,// " ++ [128512]%N ++ runes_of_ascii " emoji
-    @lengthOf(Foo)
-    Packet @calculatedFrom(""" ++ [28040; 24687]%N ++ runes_of_ascii """) `it's`,
-}")).
-Eval vm_compute in ("<<<M1303>>>" ++ check (runes_of_ascii "// top
-packet
+} 
+,
+i16  f1 ,
+repeat 
+f64 Side2
+
+    , string 
+Acct	,
+} 
+packet Cancel { zchar[ 4
+
+    ]clOrdID ,	string
+	seqNo  ,
+
+    Leg,	@leftPad
+    ('0' ) char[ 11  ] OrderId 
+,	}
+    packet Quote  {
+    repeat
+	char[
+
+4]
+	sym 
+,
+
+    f64
+	OrderId  ,
+    repeat
+Leg ,repeat
+i64 f1 , int16 Note ,  zchar[3
+	]
+	count ,
+	}root	packet Ack
+{ @leftPad	(
+' ')	char[
+
+    10 ] 
+sym
+	, InPx60	{Cancel
+
+,
+
+repeat
+char[  1
+]
+
+    f1 , string Tail,
+    repeat
+
+InNote55
+    {  int8
+	count, f64	f1,repeat  Cancel
+    ,
+} ,	char[] 
+tag7
+
+,	repeat
+
+    string
+msgKind ,
+}
+, u8
+lastPx
+	,
+match 
+lastPx as Body
+{
+152
+
+:	Quote ,173 : Cancel ,
+
+4
+	:
+Leg
+, }
+
+    ,	u16 Ref
+@calculatedFrom( ""CRC32"")	, } ")).
+Eval vm_compute in ("<<<M1377>>>" ++ check (runes_of_ascii "// top
+options
     // c0
-order_item // c1
-{ u8 // c3
-a // c4a
+{
+    // c1
+LittleEndian = // c3a
+  // c3b
+true // c4a
   // c4b
-, // c5
-} root // c7
+; // c5
+} // c6
+packet // c7
+Logon { // c9a
+  // c9b
+u8 x
+    // c11
+, }
+    // c13
 packet
+    // c14
+Logout // c15
+{ u16
+    // c17
+reason // c18a
+  // c18b
+, // c19
+} root // c21
+packet
+    // c22
+Frame {
+    // c24
+i8 Kind // c26
+, i8 // c28
+Kind2 , // c30a
+  // c30b
+match // c31
+Kind // c32a
+  // c32b
+as // c33
+Body // c34a
+  // c34b
+{
+    // c35
+1
+    // c36
+: // c37a
+  // c37b
+Logon // c38
+, // c39
+[ 2 // c41a
+  // c41b
+, // c42a
+  // c42b
+3 , // c44
+4 ] // c46
+: // c47
+Logout
+    // c48
+, // c49
+100 // c50
+: // c51
+Logon , }
+    // c54
+, // c55
+match Kind2 // c57
+as // c58a
+  // c58b
+Trailer // c59a
+  // c59b
+{
+    // c60
+0
+    // c61
+:
+    // c62
+Logout , // c64
+} // c65
+, // c66a
+  // c66b
+} // c67a
+  // c67b
+")).
+Eval vm_compute in ("<<<M1618>>>" ++ check (runes_of_ascii "// packet A { u8 x, }
+root packet leftPad {
+    @calculatedFrom(""`tick`"")
+    @rightPad()
+    // " ++ [128512]%N ++ runes_of_ascii " emoji
+    string_ @lengthOf(tag) `a\`,
+    i64 T `" ++ [233]%N ++ runes_of_ascii "`,//	t
+}
+
+packet Pad {
+    @lengthOf(float)
+    char[] x @calculatedFrom(""a\""b""),// trailing space 
+    @tag(0)
+    // " ++ [27880; 37322]%N ++ runes_of_ascii "
+    repeatCount,
+    repeat rootA {
+        _x,
+        zchar[3] roots `crlf
+        line`,
+    },
+    /// triple
+    // a // b
+    match metadata as BodyLength {
+        [
+            10, 10, 4294967296, ""a\""b"", """",
+            ""\n"", ""a\\""
+        ] : u,
+    },
+    repeat i64_ Packet `" ++ [28040; 24687; 31867; 22411]%N ++ runes_of_ascii "`,
+    @tag(65535)
+    char[] float `it's`,
+    char[7] x @calculatedFrom(""{,}""),
+}
+
+MetaData leftPad {
+    body rootA `crlf
+    line`,
+    int64 msg_type `doc`,
+}")).
+Eval vm_compute in ("<<<M1120>>>" ++ check (runes_of_ascii "// top
+root
+    // c0
+packet
+    // c1
+_x
+    // c2
+{
+    // c3
+match
+    // c4
+Foo
+    // c5
+as
+    // c6
+Z9_
+    // c7
+{
     // c8
-new_order
+""a	b""
     // c9
-{ // c10
-order_item
+:
+    // c10
+Pad
     // c11
 ,
     // c12
-u8 // c13a
-  // c13b
-x ,
-    // c15
-} ")).
-Eval vm_compute in ("<<<M309>>>" ++ check (runes_of_ascii "packet
-    // `tick` ""quote"" 'q'
-    _x {//
-repeat zchar[ 1 ] metadata
-    ,@leftPad
-    ( ' ' ) @lengthOf( T )@lengthOf(
-Z9_ )
-    char[] As// @lengthOf(
-,string f32a  , }
-")).
-Eval vm_compute in ("<<<M1672>>>" ++ check (runes_of_ascii "
-
-  MetaData  leftPad 
-{
-
-chars
-	MetaDataX
+}
+    // c13
 ,
-}packet  repeatCount
-
-    {char[
-
-    255 ]	uint8x	`" ++ [233]%N ++ runes_of_ascii "` ,	}
-    MetaData  pack
-    {
-As
-
-    Foo
-	,  // c
-  }
+    // c14
+repeat
+    // c15
+x
+    // c16
+`line1
+line2`
+    // c17
+,
+    // c18
+@rightPad
+    // c19
+(
+    // c20
+' '
+    // c21
+)
+    // c22
+@calculatedFrom(
+    // c23
+""a\\""
+    // c24
+)
+    // c25
+metadata
+    // c26
+MetaDataX
+    // c27
+,
+    // c28
+@tag(
+    // c29
+0
+    // c30
+)
+    // c31
+Logon
+    // c32
+int
+    // c33
+``
+    // c34
+,
+    // c35
+}
+    // c36
+options
+    // c37
+{
+    // c38
+T
+    // c39
+=
+    // c40
+'\x00'
+    // c41
+}
+    // c42
 ")).
+Eval vm_compute in ("<<<M1118>>>" ++ check (runes_of_ascii "MetaData Packet
+    // c1
+{ // c2
+} packet // c4a
+  // c4b
+charz // c5a
+  // c5b
+{ // c6a
+  // c6b
+Foo // c7
+asx `it's` ,
+    // c10
+@lengthOf( // c11
+T )
+    // c13
+@calculatedFrom(
+    // c14
+"""" // c15
+)
+    // c16
+@calculatedFrom(
+    // c17
+""x y"" // c18
+) // c19a
+  // c19b
+zchar[ 007 // c21
+] repeatCount @lengthOf(
+    // c24
+int // c25
+)
+    // c26
+`a\`
+    // c27
+, // c28a
+  // c28b
+i8
+    // c29
+string_ // c30a
+  // c30b
+, // c31
+repeat // c32
+options1 // c33
+Pad
+    // c34
+, } // c36a
+  // c36b
+root packet
+    // c38
+Packet { int8 // c41
+float `doc` // c43
+, // c44
+}
+    // c45
+")).
+Eval vm_compute in ("<<<M64>>>" ++ check (runes_of_ascii "
+MetaData //	t
+body { T
+    calculatedFrom, string f32a `line1
+line2`, leftPad BodyLength
+`tab	here` ,
+}options {
+}
+MetaData
+    options1	{
+char[ 3 ] MetaDataX
+// " ++ [128512]%N ++ runes_of_ascii " emoji
+/// triple
+`" ++ [28040; 24687; 31867; 22411]%N ++ runes_of_ascii "` ,  BodyLength x	`
+`,u16 tag	`say ""hi""`, u8
+float ,float32 As `
+`
+    ,
+    i8i8 Z9_ `
+`, } packet u { @tag( 42
+) options1 // c
+o `crlf
+line` ,@calculatedFrom( ""`tick`""
+// packet A { u8 x, }
+// a // b
+) repeat
+    char[]	a1
+    //x
+    ,	} options
+    { uint8x=
+true
+    A
+= // `tick` ""quote"" 'q'
+7 ; // packet A { u8 x, }
+len=	""" ++ [128512]%N ++ runes_of_ascii """
+    }")).
+Eval vm_compute in ("<<<M294>>>" ++ check (runes_of_ascii "options { rootA = 4294967296 ; falsey = ""a\""b""
+;
+As =
+// @lengthOf(
+/// triple
+""""
+;packetx
+    = ""packet"" i8i8 =true ;
+} // `tick` ""quote"" 'q'
+packet x  { repeat zchar
+rootA , char[]
+    pack  `// not a comment`
+,@tag( 00 )
+@tag( 0123456789)
+u @calculatedFrom( ""packet"" )`u8 x,` , Header{
+    zchar[ 00
+    ] body
+,
+    a1	@calculatedFrom( // " ++ [128512]%N ++ runes_of_ascii " emoji
+""it's"" )
+`" ++ [233]%N ++ runes_of_ascii "`, }, } // " ++ [27880; 37322]%N ++ runes_of_ascii "
+MetaData
+    A // a // b
+{zchar /// triple
+matchKey
+    `` , int64 metadata ,char[] _x //	t
+, }
+")).
+Eval vm_compute in ("<<<M68>>>" ++ check (runes_of_ascii "
+packet
+    Header {  match roots  as packetx
+// " ++ [27880; 37322]%N ++ runes_of_ascii "
+//	t
+{
+    // `tick` ""quote"" 'q'
+    [
+""" ++ [28040; 24687]%N ++ runes_of_ascii """ ,
+    0123456789 ]:packetx,
+//
+// c
+4294967296
+    : Logon ,	[ ""\n""
+    ,""x y"" , // " ++ [128512]%N ++ runes_of_ascii " emoji
+""packet"" , ""packet"" ] : i8i8 , 42 // `tick` ""quote"" 'q'
+:Foo
+    ,
+}, //	t
+@calculatedFrom( ""x y""	) f64 Logon ,} options
+    {
+    // " ++ [128512]%N ++ runes_of_ascii " emoji
+    chars=
+' '
+    ; repeatCount =
+""" ++ [233]%N ++ runes_of_ascii "t" ++ [233]%N ++ runes_of_ascii """ x	= ""\n"" ; calculatedFrom = ""`tick`"" //x
+; }
+")).
+Eval vm_compute in ("<<<M1806>>>" ++ check (runes_of_ascii "root packet body {
+    @lengthOf(int)
+    string tag,
+    Pad BodyLength,
+    Z9_ {
+        /// triple
+        u ``,
+        zchar[7] u,
+    },
+    uint64 calculatedFrom,
+}
+
+packet msg_type {
+    match f32a as pack {
+        ""// no comment"" : trueish,
+    },
+    @calculatedFrom(""abc"")
+    @leftPad(' ')
+    @calculatedFrom("""")
+    // c
+    matchKey T,// `tick` ""quote"" 'q'
+}")).
+Eval vm_compute in ("<<<M1538>>>" ++ check (runes_of_ascii "
+root packet
+int{
+
+match
+
+MetaDataX 
+as
+    charz {
+    255 :  uint8x	,  65535
+
+    :  // @lengthOf(
+	u128 ""\" ++ [233]%N ++ runes_of_ascii """  :	o
+    ,
+0123456789 :_x""{,}""
+:
+
+matchKey
+        // `tick` ""quote"" 'q'
+  // `tick` ""quote"" 'q'
+
+[4294967296
+
+    ,
+    """"
+, 
+10
+	]	: charz ,
+
+}
+	,
+	@lengthOf(
+roots 
+)	x	@calculatedFrom(
+""\n""
+    )
+, 
+i32
+
+tag ,  }
+
+")).
+Eval vm_compute in ("<<<M1785>>>" ++ check (runes_of_ascii "packet repeatCount {
+    @calculatedFrom(""abc"")
+    zchar[0] MetaDataX `
+        `,
+    string_ @calculatedFrom(""1""),
+    match string_ as msg_type {
+        [
+            65535, 7,
+            255, ""a	b""
+        ] : matchKey,
+        10 : options1,
+        3 : Logon,
+    },
+    // " ++ [27880; 37322]%N ++ runes_of_ascii "
+    packetx `a\`,
+}")).
+Eval vm_compute in ("<<<M1495>>>" ++ check (runes_of_ascii "options
+
+    {pack  // `tick` ""quote"" 'q'
+=
+    0123456789
+
+} 
+packet 
+metadata 
+{ @leftPad
+    (	' ' ) stringy 
+@lengthOf( _x
+
+    )
+, 
+repeat
+u8 int
+	`{ , }` ,@leftPad  //	t
+  ( '0'
+
+    )repeat 
+char  msg_type `it's` 
+,  }
+MetaData x_y_z
+{  // trailing space 
+
+	}
+")).
+Eval vm_compute in ("<<<M267>>>" ++ check (runes_of_ascii "packet trueish{
+@leftPad (// @lengthOf(
+'0'  ) @tag(  3/// triple
+) @tag(
+7 ) repeat
+//x
+// @lengthOf(
+matchKey
+{ u32 u,
+}  , @lengthOf( chars
+) @calculatedFrom(
+""a	b"") @tag( 0123456789
+    )zchar[255 ]Pad ,  } root
+    packet u { }
+")).
+Eval vm_compute in ("<<<M367>>>" ++ check (runes_of_ascii "
+packet roots  { @calculatedFrom( ""a\\"" ) @lengthOf( packetx  ) match repeatCount
+as body { 007:
+    lengthOf ,
+    00
+    :// `tick` ""quote"" 'q'
+zchar,} ,
+char[] chars
+`say ""hi""`,}
+MetaData packetx
+    {}
+")).
+Eval vm_compute in ("<<<M1933>>>" ++ check (runes_of_ascii "packet
+
+A{	match
+
+    k  as
+n
+    {
+	[ 
+""a"" 
+,
+""bb""
+, ""c c""
+,  ""d""
+
+    ,	""e"" ,
+""f"",
+
+""g"", ""h""
+
+    ,  ""i""	,
+	""j""
+	, 
+""k""
+,
+
+    ""l""  ]:
+
+    B  2
+    :
+    C  }
+,
+}")).
+Eval vm_compute in ("<<<M1603>>>" ++ check (runes_of_ascii "packet A {
+    match k as n {
+        [
+            1, 22, 4, 5, 7,
+            8, 10, 11, ""c c"", ""f"",
+            ""i"", ""l""
+        ] : B,
+        2 : C,
+    },
+}")).
 Eval vm_compute in ("<<<M443>>>" ++ check (runes_of_ascii "packet uint8x
 { match pack
     as msg_type	{
@@ -816,29 +868,18 @@ a1
     { } options {packetx
     = '\x00'	; u128= ""a	b""  ; }
 ")).
-Eval vm_compute in ("<<<M446>>>" ++ check (runes_of_ascii "packet uint8x
+Eval vm_compute in ("<<<M471>>>" ++ check (runes_of_ascii "packet uint8x
 { match pack
     as msg_type	{
     0123456789 :	float
-} }
-,
-} packet //	t
-a1
-    { } options {packetx
-    = '\x00'	; u128= ""a	b""  ; }
-")).
-Eval vm_compute in ("<<<M550>>>" ++ check (runes_of_ascii "packet uint8x
-{ match pack
-    as msg_type	{
-    0123456789 :	caf" ++ [233]%N ++ runes_of_ascii "_1
 }
 ,
 } packet //	t
 a1
-    { } options {packetx
+    { { } options {packetx
     = '\x00'	; u128= ""a	b""  ; }
 ")).
-Eval vm_compute in ("<<<M517>>>" ++ check (runes_of_ascii "packet uint8x
+Eval vm_compute in ("<<<M393>>>" ++ check (runes_of_ascii "uint8x packet
 { match pack
     as msg_type	{
     0123456789 :	float
@@ -847,230 +888,308 @@ Eval vm_compute in ("<<<M517>>>" ++ check (runes_of_ascii "packet uint8x
 } packet //	t
 a1
     { } options {packetx
-    = '\x00'	; u128""a	b"" =  ; }
+    = '\x00'	; u128= ""a	b""  ; }
 ")).
-Eval vm_compute in ("<<<M666>>>" ++ check (runes_of_ascii "// @lengthOf(
-packet i8i8 { u128 u128 o , }
+Eval vm_compute in ("<<<M673>>>" ++ check (runes_of_ascii "// @lengthOf(
+packet i8i8 { u128 o , }
 options { MetaDataX = true;
-    BodyLength =""packet"" x_y_z= 007
+    BodyLength =""packet"" x_y_z float64 007
 crc //x
 = ""abc"" ;
     msg_type =
 i16 }")).
-Eval vm_compute in ("<<<M684>>>" ++ check (runes_of_ascii "// @lengthOf(
-packet i8i8 { u128 o , }
-options { MetaDataX = true;
-    BodyLength =""packet"" x_y_z= 007
-crc //x
-= ""abc"" ;
-    msg_type =
-i16 } }")).
-Eval vm_compute in ("<<<M681>>>" ++ check (runes_of_ascii "// @lengthOf(
-packet i8i8 { u128 o , }
-options { MetaDataX = true;
-    BodyLength =""packet"" x_y_z= 007
-crc //x
-= ""abc"" ;
-    msg_type i16
-= }")).
-Eval vm_compute in ("<<<M71>>>" ++ check (runes_of_ascii "root packet MetaDataX
-{repeat u8x len `" ++ [28040; 24687; 31867; 22411]%N ++ runes_of_ascii "`,
-As { u8x
-, } , int f32a
-`" ++ [233]%N ++ runes_of_ascii "`, @lengthOf( float ) Z9_
-// @lengthOf(
-// trailing space 
-`a\` , }")).
-Eval vm_compute in ("<<<M1298>>>" ++ check (runes_of_ascii "packet
-A
-{ 
-u8 a,
+Eval vm_compute in ("<<<M394>>>" ++ check (runes_of_ascii "u32 uint8x
+{ match pack
+    as msg_type	{
+    0123456789 :	float
 }
-
-packet
-    B {
-
-u16  b
-,} 
-root	packet	P
-{ u8
-K
-
 ,
-
-    match	K
-
-as M	{1
-    :
-A,
-
-1	: 
-B 
-, }
-,
-
-    }
-
+} packet //	t
+a1
+    { } options {packetx
+    = '\x00'	; u128= ""a	b""  ; }
 ")).
-Eval vm_compute in ("<<<M1761>>>" ++ check (runes_of_ascii "MetaData leftPad {
-    chars MetaDataX,
+Eval vm_compute in ("<<<M391>>>" ++ check (runes_of_ascii " uint8x
+{ match pack
+    as msg_type	{
+    0123456789 :	float
+}
+,
+} packet //	t
+a1
+    { } options {packetx
+    = '\x00'	; u128= ""a	b""  ; }
+")).
+Eval vm_compute in ("<<<M721>>>" ++ check (runes_of_ascii "// @lengthOf(
+packet i8i8 { u128 o , }
+options { MetaDataX = true;
+    BodyLength =""packet"" x_y_z= 007
+crc //x
+= ""abc"" msg_type
+    ; =
+i16 }")).
+Eval vm_compute in ("<<<M61>>>" ++ check (runes_of_ascii "packet
+    i64_ { }
+MetaData uint8x {Packet tag , u8	repeatCount
+, x_y_z
+_x `" ++ [233]%N ++ runes_of_ascii "`
+    , zchar[
+    42
+    ]
+    crc
+`a\` ,
+} options	{ }")).
+Eval vm_compute in ("<<<M144>>>" ++ check (runes_of_ascii "  MetaData falsey {o i8i8
+,char[]
+pack  ,
+float32 lengthOf , len //x
+BodyLength, BodyLength o
+, stringy  u128	`crlf
+line` , } 	 ")).
+Eval vm_compute in ("<<<M1564>>>" ++ check (runes_of_ascii "packet B {
+    u8 a,
 }
 
-packet repeatCount {
-    char[255] uint8x `" ++ [233]%N ++ runes_of_ascii "`,
-}// c
-
-MetaData pack {
-    As Foo,
+root packet P {
+    u8 K,
+    match K as Body {
+        1 : B,
+    },
+    u16 L @lengthOf(Body),
 }")).
-Eval vm_compute in ("<<<M1141>>>" ++ check (runes_of_ascii "// c
-MetaData leftPad { chars MetaDataX , } packet repeatCount { char[ 255 ] uint8x `" ++ [233]%N ++ runes_of_ascii "` , } MetaData pack { As Foo , }")).
-Eval vm_compute in ("<<<M1174>>>" ++ check (runes_of_ascii "MetaData leftPad { chars MetaDataX , } packet repeatCount { char[ 255 ] uint8x `" ++ [233]%N ++ runes_of_ascii "` ,
+Eval vm_compute in ("<<<M1158>>>" ++ check (runes_of_ascii "MetaData leftPad { chars MetaDataX , } packet
 // c
-} MetaData pack { As Foo , }")).
-Eval vm_compute in ("<<<M346>>>" ++ check (runes_of_ascii "MetaData chars {
-x_y_z
-/// triple
-/// triple
-x
-    `line1
-line2` ,_x A`// not a comment`,	} // `tick` ""quote"" 'q'")).
-Eval vm_compute in ("<<<M955>>>" ++ check (runes_of_ascii "packet A {
-    u16 len @lengthOf(body) `
-x`,
-    u32 crc @calculatedFrom(""CRC32"") `
-x`,
-    string body,
+repeatCount { char[ 255 ] uint8x `" ++ [233]%N ++ runes_of_ascii "` , } MetaData pack { As Foo , }")).
+Eval vm_compute in ("<<<M39>>>" ++ check (runes_of_ascii "options { o =
+    '\x00' // " ++ [128512]%N ++ runes_of_ascii " emoji
+; T = u32 ; msg_type
+// `tick` ""quote"" 'q'
+//
+= ""a	b""  a1 = '\x00'
+}
+// " ++ [128512]%N ++ runes_of_ascii " emoji
+")).
+Eval vm_compute in ("<<<M1601>>>" ++ check (runes_of_ascii "
+
+  packet A
+    {match
+
+    k  as  n { [
+	1
+,
+22	,""c c"",
+
+4
+,
+5
+, ""f"" 
+,
+
+7
+] : B
+,
+2
+
+    : C
+	}	,
+
 }")).
-Eval vm_compute in ("<<<M868>>>" ++ check (runes_of_ascii "packet A {
-  match k as n {
-    [""a"", ""bb"", ""c c"", ""d"", ""e"", ""f"", ""g"", ""h"", ""i""] : B
-    2 : C
-  },
-}")).
-Eval vm_compute in ("<<<M1411>>>" ++ check (runes_of_ascii "
-packet A{  Inner {
-u8
-
-x
-`a
-b`,
-	Deep
-
-    {  u8
-y `a
-b`
-
-    ,
-
-    }
-	,
-
-    }
-	, }
+Eval vm_compute in ("<<<M142>>>" ++ check (runes_of_ascii "packet
+len
+    // " ++ [128512]%N ++ runes_of_ascii " emoji
+    { int64 a1	@lengthOf(x_y_z )	, }
+// c
+// trailing space 
+packet x_y_z { }
 
 ")).
-Eval vm_compute in ("<<<M630>>>" ++ check (runes_of_ascii "
+Eval vm_compute in ("<<<M1691>>>" ++ check (runes_of_ascii "
+packet A
+
+    {
+
+    match
+
+k
+
+as n { [ 1 ,
+    22
+
+,007
+
+,
+    4
+	,	5 
+]  :
+B
+
+    2: C} ,}
+")).
+Eval vm_compute in ("<<<M590>>>" ++ check (runes_of_ascii "
 packet
-    a@tagsx {match u128 as lengthOf
-{
+    asx {match u128 as lengthOf
+MetaData
 //	t
 // `tick` ""quote"" 'q'
 255 : x ,
     } ,	}")).
-Eval vm_compute in ("<<<M1474>>>" ++ check (runes_of_ascii "packet A {
-    match k as n {
-        [22, 4, ""a"", ""c c"", ""e""] : B,
-        2 : C,
-    },
-}")).
-Eval vm_compute in ("<<<M849>>>" ++ check (runes_of_ascii "packet A {
-  match k as n {
-    [""a"", ""bb"", 007, ""d"", ""e"", 66, ""g""] : B,
-    2 : C
-  },
-}")).
-Eval vm_compute in ("<<<M592>>>" ++ check (runes_of_ascii "
+Eval vm_compute in ("<<<M1757>>>" ++ check (runes_of_ascii "packet
+
+    A {
+	match
+
+    k
+
+    as
+	n  {
+1: 
+B  // a
+
+// b
+2
+
+:
+    C
+
+    }
+	, } ")).
+Eval vm_compute in ("<<<M631>>>" ++ check (runes_of_ascii "
 packet
     asx {match u128 as lengthOf
 {
 //	t
 // `tick` ""quote"" 'q'
- : x ,
+255 %: x ,
     } ,	}")).
-Eval vm_compute in ("<<<M647>>>" ++ check (runes_of_ascii "// @lengthOf(
-packet i8i8 { u128 o , }
-options { MetaDataX = true;
-    BodyLength =")).
-Eval vm_compute in ("<<<M916>>>" ++ check (runes_of_ascii "packet A { Inner { match k as n { [1,22,007,4,5,66,7,8,9,10,11,12] : B, }, }, }")).
-Eval vm_compute in ("<<<M166>>>" ++ check (runes_of_ascii "packet calculatedFrom {repeat // packet A { u8 x, }
-string Foo`{ , }`	, }
+Eval vm_compute in ("<<<M1546>>>" ++ check (runes_of_ascii "packet A {
+    match k as n {
+        [1, 007, 5, ""bb"", ""d""] : B,
+        2 : C,
+    },
+}")).
+Eval vm_compute in ("<<<M1289>>>" ++ check (runes_of_ascii "
+root
+
+    packet
+
+P
+{repeat	string
+    ss
+    ,  repeat
+    u16
+ns
+    ,
+
+    }
 ")).
-Eval vm_compute in ("<<<M790>>>" ++ check (runes_of_ascii "packet A {
-  match k as n {
-    [""a"", ""bb"", ""c c""] : B
-    2 : C
-  },
+Eval vm_compute in ("<<<M1511>>>" ++ check (runes_of_ascii "packet A {
+    match k as n {
+        [22, ""a"", ""c c""] : B,
+        2 : C,
+    },
 }")).
-Eval vm_compute in ("<<<M792>>>" ++ check (runes_of_ascii "packet A {
-  match k as n {
-    [1, ""bb"", 007] : B
-    2 : C
-  },
+Eval vm_compute in ("<<<M1252>>>" ++ check (runes_of_ascii "packet Inner {
+    u8 a,
+}
+root packet P {
+    repeat Inner items,
+    u8 x,
+}
+")).
+Eval vm_compute in ("<<<M1484>>>" ++ check (runes_of_ascii "  options
+    { // " ++ [128512]%N ++ runes_of_ascii " emoji
+
+Packet 
+= // `tick` ""quote"" 'q'
+
+	char[ 3 ] }
+
+")).
+Eval vm_compute in ("<<<M1821>>>" ++ check (runes_of_ascii "packet
+	A{ B
+    b `a
+
+b` 
+,  B
+
+    `a
+
+b`	,
+repeat  B
+	bs `a
+
+b` , }")).
+Eval vm_compute in ("<<<M1280>>>" ++ check (runes_of_ascii "root packet P {
+    u16 a,
+    u32 Sum @calculatedFrom(""CRC32""),
+}
+")).
+Eval vm_compute in ("<<<M365>>>" ++ check (runes_of_ascii "MetaData x_y_z { i8i8 u8x , string	uint8x
+    `crlf
+line` , }")).
+Eval vm_compute in ("<<<M1628>>>" ++ check (runes_of_ascii "MetaData M {
+    u8 x `tab
+    	x`,
+    T t `tab
+    	x`,
 }")).
-Eval vm_compute in ("<<<M1751>>>" ++ check (runes_of_ascii "options {
-    asx = ""1""//	t
-    Pad = 0
-    stringy = '\x00';
+Eval vm_compute in ("<<<M1198>>>" ++ check (runes_of_ascii "
+// c
+packet body { i32 f32a `{ , }` , } options { }")).
+Eval vm_compute in ("<<<M1085>>>" ++ check (runes_of_ascii "packet A { B { // a
+ u8 x, // b
+ } // c
+ , // d
+ }")).
+Eval vm_compute in ("<<<M1600>>>" ++ check (runes_of_ascii "packet A 
+{
+
+u8
+x	`d 	`
+    ,  // c 	
+  }
+")).
+Eval vm_compute in ("<<<M1782>>>" ++ check (runes_of_ascii "
+options{
+
+a
+	= ""\
+""
+;
+b
+=
+""\
+"" 
+}
+")).
+Eval vm_compute in ("<<<M132>>>" ++ check (runes_of_ascii "options
+    { Foo = 0123456789
+; }")).
+Eval vm_compute in ("<<<M1814>>>" ++ check (runes_of_ascii "packet A {
+    u8 x `
+    x`,
 }")).
-Eval vm_compute in ("<<<M775>>>" ++ check (runes_of_ascii "packet A {
-  match k as n {
-    [""a""] : B,
-    2 : C
-  },
-}")).
-Eval vm_compute in ("<<<M786>>>" ++ check (runes_of_ascii "packet A { Inner { match k as n { [1,22] : B, }, }, }")).
-Eval vm_compute in ("<<<M1216>>>" ++ check (runes_of_ascii "packet body { i32 f32a `{ , }` , } options
+Eval vm_compute in ("<<<M381>>>" ++ check (runes_of_ascii "options{
+int
+=char[] ; }
+//
+")).
+Eval vm_compute in ("<<<M326>>>" ++ check (runes_of_ascii "  options{// a // b
+}
+
+")).
+Eval vm_compute in ("<<<M1108>>>" ++ check (runes_of_ascii "MetaData tag
 // c
 { }")).
-Eval vm_compute in ("<<<M1125>>>" ++ check (runes_of_ascii "// top
-MetaData // c0
-u // c1
-{ // c2
-} // c3
+Eval vm_compute in ("<<<M95>>>" ++ check (runes_of_ascii "
+packet  Logon {}
 ")).
-Eval vm_compute in ("<<<M940>>>" ++ check (runes_of_ascii "root packet A {
-    u8 x `a
-    b
-  c`,
-}")).
-Eval vm_compute in ("<<<M200>>>" ++ check (runes_of_ascii "options {
-options1 =
-    ' ' ;
+Eval vm_compute in ("<<<M1046>>>" ++ check (runes_of_ascii "packet A {
 }
-
-")).
-Eval vm_compute in ("<<<M934>>>" ++ check (runes_of_ascii "root packet A {
-    u8 x `
-`,
-}")).
-Eval vm_compute in ("<<<M759>>>" ++ check (runes_of_ascii "= u64 ; u32 MetaData packet {")).
-Eval vm_compute in ("<<<M1784>>>" ++ check (runes_of_ascii "
-
-  packet falsey  {  }
-
-")).
-Eval vm_compute in ("<<<M295>>>" ++ check (runes_of_ascii "root  packet
-u128 { }")).
-Eval vm_compute in ("<<<M1128>>>" ++ check (runes_of_ascii "// c
-MetaData u { }")).
-Eval vm_compute in ("<<<M1026>>>" ++ check (runes_of_ascii "packet A {
-}
-// c" ++ [8287]%N)).
-Eval vm_compute in ("<<<M1004>>>" ++ check (runes_of_ascii "packet A {
-}// c" ++ [8202]%N)).
-Eval vm_compute in ("<<<M1072>>>" ++ check (runes_of_ascii "
-
-  packet A {}")).
+// c" ++ [8203]%N)).
+Eval vm_compute in ("<<<M1044>>>" ++ check (runes_of_ascii "packet A {
+}// c" ++ [8203]%N)).
+Eval vm_compute in ("<<<M99>>>" ++ check (runes_of_ascii "
+ // " ++ [128512]%N ++ runes_of_ascii " emoji")).
 Eval vm_compute in ("<<<M980>>>" ++ check (runes_of_ascii "// c" ++ [12288]%N)).
-Eval vm_compute in ("<<<M725>>>" ++ check (runes_of_ascii " ")).
+Eval vm_compute in ("<<<M737>>>" ++ check ([1875; 65533]%N)).
